@@ -36,6 +36,17 @@ type c16Server struct {
 	srv     *httptest.Server
 	answers map[string]c16Answer
 	Hits    map[string]int
+	gates   map[string]*c16Gate
+}
+
+// Gate: requests under the prefix pass the gate (history mode: a call is held there while the next one runs).
+func (s *c16Server) Gate(prefix string, g *c16Gate) {
+	s.mu.Lock()
+	defer s.mu.Unlock()
+	if s.gates == nil {
+		s.gates = map[string]*c16Gate{}
+	}
+	s.gates[prefix] = g
 }
 
 func c16NewServer() *c16Server {
@@ -70,8 +81,15 @@ func (s *c16Server) handle(w http.ResponseWriter, r *http.Request) {
 			break
 		}
 	}
+	var gate *c16Gate
+	for p, g := range s.gates {
+		if strings.HasPrefix(r.URL.Path, p) {
+			gate = g
+		}
+	}
 	s.mu.Unlock()
 	if ans == nil {
+		gate.Pass()
 		w.Header().Set("Content-Type", "application/json")
 		w.WriteHeader(http.StatusNotFound)
 		fmt.Fprint(w, `{"code":404,"message":"not found"}`)
@@ -81,6 +99,8 @@ func (s *c16Server) handle(w http.ResponseWriter, r *http.Request) {
 	if a.Func != nil {
 		a = a.Func(r)
 	}
+	// the answer is the one scripted when the request arrived; a held request is answered when it is let go
+	gate.Pass()
 	ct := false
 	for k, v := range a.Headers {
 		if strings.EqualFold(k, "Content-Type") {
